@@ -56,20 +56,32 @@ def node(tag, a=None, s=None, c=None):
     return {"tag": tag, "a": dict(a or {}), "s": dict(s or {}), "c": list(c or [])}
 
 
-def serialize(n, root=False) -> str:
+def _esc(v: str) -> str:
+    return str(v).replace("&", "&amp;").replace("<", "&lt;").replace('"', "&quot;")
+
+
+def serialize(n, root=False, extra_ns: str = "", prolog: str = "") -> str:
+    """Special tags: '#comment' / '#pi' / '#raw' (text given in n['a']['text']) for noise insertion."""
+    tag = n["tag"]
+    if tag == "#comment":
+        return f"<!--{n['a']['text']}-->"
+    if tag == "#pi":
+        return f"<?{n['a']['text']}?>"
+    if tag == "#raw":
+        return n["a"]["text"]
     attrs = dict(n["a"])
     if n["s"]:
         attrs["style"] = ";".join(f"{k}:{v}" for k, v in n["s"].items())
-    parts = [f"<{n['tag']}"]
+    parts = [prolog, f"<{tag}"]
     if root:
-        parts.append(" " + NS)
+        parts.append(" " + NS + ((" " + extra_ns) if extra_ns else ""))
     for k, v in attrs.items():
-        parts.append(f' {k}="{v}"')
+        parts.append(f' {k}="{_esc(v)}"')
     if n["c"]:
         parts.append(">")
         for ch in n["c"]:
             parts.append(serialize(ch))
-        parts.append(f"</{n['tag']}>")
+        parts.append(f"</{tag}>")
     else:
         parts.append("/>")
     return "".join(parts)
@@ -484,6 +496,13 @@ def _gen_clippath(draw, cx):
 
 @st.composite
 def document(draw, cfg: Cfg, hook=None, root_hook=None):
+    root, feat = draw(document_ast(cfg, hook, root_hook))
+    return {"svg": serialize(root, root=True), "feat": feat}
+
+
+@st.composite
+def document_ast(draw, cfg: Cfg, hook=None, root_hook=None):
+    """-> (root node, sorted feature labels); serialise with serialize(root, root=True)."""
     box = draw(viewbox())
     cx = _Ctx(cfg, box)
     root = node("svg", {"viewBox": f"{fmt(box.x)} {fmt(box.y)} {fmt(box.w)} {fmt(box.h)}"})
@@ -519,7 +538,7 @@ def document(draw, cfg: Cfg, hook=None, root_hook=None):
     else:
         root["c"] = body
     _strip(root)
-    return {"svg": serialize(root, root=True), "feat": sorted(cx.feat)}
+    return root, sorted(cx.feat)
 
 
 def _strip(n):
@@ -577,7 +596,7 @@ def cascade_hook(draw, cx, n):
 
 
 def root_cascade_hook(draw, cx, root, allow_opacity=False):
-    props = draw(st.lists(st.sampled_from(["fill", "fill-opacity", "fill-rule"] + (["opacity"] if allow_opacity else [])), max_size=2, unique=True))
+    props = draw(st.lists(st.sampled_from(["fill", "fill-opacity", "fill-rule", "color", "stroke-linejoin"] + (["opacity"] if allow_opacity else [])), max_size=2, unique=True))
     for p in props:
         if p == "fill":
             _put(draw, root, "fill", PALETTE[8:12])
@@ -585,6 +604,10 @@ def root_cascade_hook(draw, cx, root, allow_opacity=False):
             _put(draw, root, "fill-opacity", ["0.5", "0.75"])
         elif p == "fill-rule":
             _put(draw, root, "fill-rule", ["evenodd"])
+        elif p == "color":
+            _put(draw, root, "color", ["red", "blue"])  # inherited, unused (currentColor is never generated)
+        elif p == "stroke-linejoin":
+            _put(draw, root, "stroke-linejoin", ["round", "bevel"])  # inherited; only matters for stroked content
         elif p == "opacity":
             _put(draw, root, "opacity", ["0.5", "0.3"])
             cx.feat.add("root-opacity")
